@@ -400,8 +400,8 @@ var reuse = vh.Define("C08", "signer-reuse", func(c ReuseCase, r *vh.R) {
 	// re-point the same Signer object
 	fb := gen.Fixtures()[sb.Fixture]
 	sg.Certs = fb.Chain
-	sg.Date = time.Unix(sb.Date, 0)
-	sg.Expires = time.Unix(sb.Expires, 0)
+	sg.Date = gen.Instant(sb.Date, 0)
+	sg.Expires = gen.Instant(sb.Expires, 0)
 	sg.ValidityUrl = mustURL(sb.ValidityURL)
 	sg.CertUrl = mustURL(sb.CertURL)
 	if err := eb.AddSignatureHeader(sg); err != nil {
